@@ -43,7 +43,10 @@ def main():
             sh(['git', '-C', wt, 'reset', '--hard', '-q', 'HEAD'])
             name = 'fixrev-%02d-%s' % (n, prop.lower())
             open(os.path.join(VERIF, 'mutants', name + '.patch'), 'w').write(d)
-            meta[name] = {'property': prop, 'note': 'takes out again: ' + subj, 'file': 'nptdms', 'reverts_fix': h[:7]}
+            prev = meta.get(name, {})
+            meta[name] = {'property': prop, 'note': prev.get('note') or ('takes out again: ' + subj), 'file': 'nptdms', 'reverts_fix': h[:7]}
+            if prev.get('also'):
+                meta[name]['also'] = prev['also']
             print(name, 'written')
     finally:
         sh(['git', '-C', '/repo', 'worktree', 'remove', '--force', wt])
